@@ -7,6 +7,7 @@ import (
 	"github.com/glebziz/fs_db/internal/model/sequence"
 	"hash/fnv"
 	"sort"
+	"time"
 
 	"github.com/glebziz/fs_db"
 	"github.com/glebziz/fs_db/internal/verif/refmodel"
@@ -110,6 +111,11 @@ func (cr *concRun) do(client int, o Op) {
 		return
 	case "seqjump":
 		sequence.VerifAdvance(uint64(o.Size))
+		return
+	case "advance":
+		// simulated time passes (N milliseconds) while the other clients are wherever they are:
+		// a client may be held anywhere for seconds (a descheduled goroutine, a paused VM)
+		simrt.AdvanceTime(int64(o.N) * int64(time.Millisecond))
 		return
 	}
 	simrt.Yield("op.call")
